@@ -231,7 +231,8 @@ func runWorker(args []string) int {
 		}
 		tp := core.NewTape(core.RunSeed(*seed, *prop, r))
 		rr := core.Exec(*prop, tp, false, func(c *core.Ctx) *core.Violation { c.Env = env; return f(c) })
-		if raceEnabled && rr.V != nil && strings.HasSuffix(rr.V.Class, "/deadlock") {
+		if rr.V != nil && (raceEnabled && core.NeverReturns(rr.V.Class) || strings.HasSuffix(rr.V.Class, "/hang")) {
+			// (a spinning goroutine, moreover, keeps eating this process's CPU: leave at once)
 			// The blocked goroutine never synchronises with this one again, so reading what it
 			// wrote (counters, tape) would itself be reported by the detector. Hand the run to the
 			// orchestrator, which re-establishes the verdict with the plain binary.
@@ -372,7 +373,7 @@ func runWorker(args []string) int {
 			if len(tp.Rec) > 20000 {
 				maxExec = 400
 			}
-			if strings.HasSuffix(class, "/deadlock") {
+			if core.NeverReturns(class) {
 				// The blocked goroutine of the failing execution still holds its lock: this process
 				// is spoilt for every later execution. One process per candidate; the verdict
 				// written to the replay file is the fresh child's.
@@ -439,6 +440,12 @@ var deadlockMarker = regexp.MustCompile(`(?m)^DEADLOCK-IN-RUN (\d+)$`)
 func deadlockFile(bin, prop string, seed uint64, tier string, r int, tape []uint32, v0 *core.Violation, desc, trace []string) violationRec {
 	class := v0.Class
 	oracle := func(tape []uint32) (*core.Violation, []uint32) {
+		// candidates of a hang are judged with a lower CPU threshold (the minimised tape is then
+		// re-established below with the full one, and dropped if it does not hold)
+		if strings.HasSuffix(class, "/hang") {
+			os.Setenv("VERIF_HANG_CPU_MS", "3000")
+			defer os.Unsetenv("VERIF_HANG_CPU_MS")
+		}
 		c, o, used := execTapeProc(bin, prop, tier, tape, true)
 		if c == 1 && classOf(o) == class {
 			if used == nil {
@@ -462,7 +469,7 @@ func deadlockFile(bin, prop string, seed uint64, tier string, r int, tape []uint
 	}
 	rf := replayFile{Property: prop, Seed: seed, Run: r, Tier: tier, Class: class, Facts: v0.Facts, Msg: msg, Event: v0.Event,
 		Digest: "fresh", Tape: small, Desc: desc, Trace: trace, OrigTape: len(tape), FreshOnly: true, Build: buildName()}
-	path := filepath.Join(replayDir(), fmt.Sprintf("%s-%d-%d-deadlock.json", prop, seed, r))
+	path := filepath.Join(replayDir(), fmt.Sprintf("%s-%d-%d-%s.json", prop, seed, r, class[strings.LastIndex(class, "/")+1:]))
 	os.MkdirAll(filepath.Dir(path), 0o755)
 	b, _ := json.MarshalIndent(rf, "", " ")
 	os.WriteFile(path, b, 0o644)
@@ -477,7 +484,7 @@ func confirmDeadlock(prop string, seed uint64, tier string, r int) (*violationRe
 		return nil, fmt.Sprintf("cannot obtain the tape of run %d", r)
 	}
 	c, o, _ := execTapeProc(os.Args[0], prop, tier, tape, true)
-	if c != 1 || !strings.HasSuffix(classOf(o), "/deadlock") {
+	if c != 1 || !core.NeverReturns(classOf(o)) {
 		return nil, fmt.Sprintf("run %d blocked forever in a race worker, but not in a fresh process of the plain binary (exit %d):\n%s", r, c, lastLines(o, 20))
 	}
 	v0 := &core.Violation{Class: classOf(o), Facts: factsOf(o), Msg: msgOf(o)}
@@ -744,7 +751,7 @@ func runCheck(args []string) int {
 				rr, _ := strconv.Atoi(m[1])
 				dup := false
 				for _, v := range total.Violations {
-					dup = dup || strings.HasSuffix(v.Class, "/deadlock")
+					dup = dup || core.NeverReturns(v.Class)
 				}
 				if dup {
 					continue
